@@ -98,7 +98,7 @@ func main() {
 		h.model = m
 		defer m.Close()
 	}
-	run.SetRule("direct: every subset E of a 4(5)-cursor universe in seeded order × after,before ∈ {absent} ∪ every integer position (members and gaps) × first,last ∈ {absent,0..|E|+1}; served: every subset of a 4(5)-cursor universe × {all,window}×{sync,promise} × (first|last ∈ 0..|E|+1) × after,before ∈ {absent} ∪ cursors(E) ∪ 3 foreign emitted cursors, getter policy / selection / argument spelling seeded, all four selections on the zero-edge path; count-error combinations; arbitrary cursor strings; forward and backward walks for every page size 1..|E|+1; random larger sets; codec round trips. distinct = distinct canonical case; non-trivial = the selected page is a non-empty proper sub-list of E (direct/served), an arbitrary cursor string is involved, or the walk needs more than one page")
+	run.SetRule("direct: every subset E of a 4(5)-cursor universe in seeded order × after,before ∈ {absent} ∪ every integer position (members and gaps) × first,last ∈ {absent,0..|E|+1}; served (four APIs built in one process — plain connections built before, next to, after customised ones — the API seeded per case): every subset of a 4(5)-cursor universe × {all,window}×{sync,promise} × (first|last ∈ 0..|E|+1) × after,before ∈ {absent} ∪ cursors(E) ∪ 3 foreign emitted cursors, getter policy / selection / argument spelling seeded, all four selections on the zero-edge path; count-error combinations; forward-only, backward-only and customised (default first/last, required extra argument) connections × counts × cursors on every API; edges selected with four edge fields (node, label, weight, even); arbitrary cursor strings; forward and backward walks for every page size 1..|E|+1; random larger sets; codec round trips. distinct = distinct canonical case; non-trivial = the selected page is a non-empty proper sub-list of E (direct/served), an arbitrary cursor string is involved, or the walk needs more than one page")
 
 	if run.Replay != "" {
 		var c Case
@@ -192,7 +192,7 @@ func main() {
 								sels = [][2]bool{{false, false}, {true, false}, {false, true}, {true, true}}
 							}
 							for _, s := range sels {
-								r := Req{Mode: m.mode, Promise: m.promise, After: a, Before: b, SelPI: s[0], SelTC: s[1], Vars: R.Chance(1, 3), NullAbsent: R.Chance(1, 4), NilEmpty: R.Bool()}
+								r := Req{Mode: m.mode, Promise: m.promise, After: a, Before: b, SelPI: s[0], SelTC: s[1], Vars: R.Chance(1, 3), NullAbsent: R.Chance(1, 4), NilEmpty: R.Bool(), World: R.Intn(numWorlds), NodeOnly: R.Chance(1, 8)}
 								if fwd {
 									r.First = ip(n)
 								} else {
@@ -207,15 +207,60 @@ func main() {
 			// count errors
 			for _, fl := range [][2]*int{{nil, nil}, {ip(-1), nil}, {ip(-2), nil}, {nil, ip(-1)}, {nil, ip(-3)}, {ip(1), ip(1)}, {ip(0), ip(0)}, {ip(-1), ip(1)}, {ip(1), ip(-1)}, {ip(-1), ip(-1)}, {ip(2), ip(0)}} {
 				for _, a := range []*CurArg{nil, curs[len(curs)-1], {Kind: "raw", S: "!!"}} {
-					r := Req{Mode: m.mode, Promise: m.promise, First: fl[0], Last: fl[1], After: a, SelPI: R.Bool(), SelTC: R.Bool(), Vars: R.Chance(1, 3), NullAbsent: R.Chance(1, 4), NilEmpty: R.Bool()}
+					r := Req{Mode: m.mode, Promise: m.promise, First: fl[0], Last: fl[1], After: a, SelPI: R.Bool(), SelTC: R.Bool(), Vars: R.Chance(1, 3), NullAbsent: R.Chance(1, 4), NilEmpty: R.Bool(), World: R.Intn(numWorlds), NodeOnly: R.Chance(1, 8)}
 					h.check(Case{Kind: "served", E: E, Policy: R.Intn(numPolicies), PolicySeed: R.Uint64() >> 1, Req: &r})
 				}
 			}
 			// walks for every page size
 			for n := 1; n <= len(E)+1; n++ {
 				for _, fwd := range []bool{true, false} {
-					h.check(Case{Kind: "walk", E: E, Policy: R.Intn(numPolicies), PolicySeed: R.Uint64() >> 1, Walk: &Walk{Mode: m.mode, Promise: m.promise, Forward: fwd, N: n}})
+					h.check(Case{Kind: "walk", E: E, Policy: R.Intn(numPolicies), PolicySeed: R.Uint64() >> 1, Walk: &Walk{Mode: m.mode, Promise: m.promise, Forward: fwd, N: n, World: R.Intn(numWorlds)}})
 				}
+			}
+		}
+	}
+	// ---- direction-only and customised connections next to the plain ones (every API of the process)
+	for _, set := range subsets(su) {
+		E := append([]int{}, set...)
+		hx.Shuffle(R, E)
+		var curs []*CurArg
+		curs = append(curs, nil)
+		for _, c := range append(append([]int{}, set...), foreign[1]) {
+			curs = append(curs, &CurArg{Kind: "emitted", C: c, S: emit(c)})
+		}
+		for world := 0; world < numWorlds; world++ {
+			fields := []string{"fwdOnly", "bwdOnly"}
+			if world == 1 || world == 2 {
+				fields = append(fields, "customAll", "customFwd", "customBwd")
+			}
+			for _, f := range fields {
+				fwd := f == "fwdOnly" || f == "customFwd"
+				both := f == "customAll"
+				counts := []*int{nil}
+				for n := 0; n <= len(E)+1; n++ {
+					counts = append(counts, ip(n))
+				}
+				for _, n := range counts {
+					for _, cur := range curs {
+						r := Req{Mode: "all", Field: f, World: world, SelPI: R.Chance(3, 4), SelTC: R.Bool(), NilEmpty: R.Bool()}
+						switch {
+						case both && R.Bool():
+							r.First, r.After, r.Before = n, cur, hx.Pick(R, curs)
+						case both:
+							r.Last, r.Before = n, cur // with the default `first` this is "both"
+						case fwd:
+							r.First, r.After = n, cur
+						default:
+							r.Last, r.Before = n, cur
+						}
+						h.check(Case{Kind: "served", E: E, Req: &r})
+					}
+				}
+			}
+			// walks over the direction-only connections
+			for n := 1; n <= len(E)+1; n++ {
+				h.check(Case{Kind: "walk", E: E, Walk: &Walk{Mode: "all", Forward: true, N: n, World: world, Field: "fwdOnly"}})
+				h.check(Case{Kind: "walk", E: E, Walk: &Walk{Mode: "all", Forward: false, N: n, World: world, Field: "bwdOnly"}})
 			}
 		}
 	}
@@ -227,7 +272,7 @@ func main() {
 		for _, s := range raws {
 			for _, m := range modes {
 				for k := 0; k < 3; k++ {
-					r := Req{Mode: m.mode, Promise: m.promise, SelPI: true, SelTC: R.Bool(), Vars: R.Bool(), NilEmpty: R.Bool()}
+					r := Req{Mode: m.mode, Promise: m.promise, SelPI: true, SelTC: R.Bool(), Vars: R.Bool(), NilEmpty: R.Bool(), World: R.Intn(numWorlds)}
 					raw := &CurArg{Kind: "raw", S: s}
 					switch k {
 					case 0:
@@ -268,7 +313,7 @@ func main() {
 		}
 		m := hx.Pick(r, modes)
 		if r.Chance(1, 3) {
-			h.check(Case{Kind: "walk", E: E, Policy: r.Intn(numPolicies), PolicySeed: r.Uint64() >> 1, Walk: &Walk{Mode: m.mode, Promise: m.promise, Forward: r.Bool(), N: r.Range(1, n+1)}})
+			h.check(Case{Kind: "walk", E: E, Policy: r.Intn(numPolicies), PolicySeed: r.Uint64() >> 1, Walk: &Walk{Mode: m.mode, Promise: m.promise, Forward: r.Bool(), N: r.Range(1, n+1), World: r.Intn(numWorlds)}})
 			continue
 		}
 		pickCur := func() *CurArg {
@@ -286,7 +331,7 @@ func main() {
 				return &CurArg{Kind: "emitted", C: c, S: emit(c)}
 			}
 		}
-		rq := Req{Mode: m.mode, Promise: m.promise, After: pickCur(), Before: pickCur(), SelPI: r.Chance(3, 4), SelTC: r.Bool(), Vars: r.Bool(), NullAbsent: r.Chance(1, 4), NilEmpty: r.Bool()}
+		rq := Req{Mode: m.mode, Promise: m.promise, After: pickCur(), Before: pickCur(), SelPI: r.Chance(3, 4), SelTC: r.Bool(), Vars: r.Bool(), NullAbsent: r.Chance(1, 4), NilEmpty: r.Bool(), World: r.Intn(numWorlds), NodeOnly: r.Chance(1, 8)}
 		if r.Bool() {
 			rq.First = ip(r.Range(0, n+1))
 		} else {
